@@ -248,6 +248,12 @@ def body(PROP, plan):
             pool = [b for b in edges + walks if sum(1 for st in b["steps"] if st["a"] in ENV) >= 2]
             free = [dict(b, free=True, steps=[st for st in b["steps"] if st["a"] in ENV])
                     for b in rng.sample(pool, min(len(pool), p.get("free", 300)))]
+            # wide ranges: some free behaviours start far behind the tip (1000+ quiet blocks below the scripted ones) with a chunk
+            # size beyond a thousand blocks - one eth_getLogs range then spans more than a provider's page
+            for b in free:
+                if b["proc"] == "rec" and rng.random() < 0.06:
+                    b["offset"] = rng.choice([1000, 1000, 2000, 999, 1001])
+                    b["chunk"] = rng.choice([1000, 2500, 5000])
             behs = plan.get("regress", lambda: [])() + edges + walks + l1 + free
             # a third of the behaviours (regressions excluded) run with a second syncer on the same reorg detector: it tracks the
             # same blocks under its own subscriber id (bridgesync and l1infotreesync share the L1 detector in a real node)
@@ -371,7 +377,7 @@ def body(PROP, plan):
                          exhaustive=True) for m in mc_out],
             model_invariants=plan["invariants"],
             faithful_model_of_recorded_findings=probe_out,
-            behaviours=dict(edge_cover_sampled=n_edge, random_walks=n_walk, free_scheduling=sum(1 for b in behs if b.get("free")), with_second_subscriber=sum(1 for b in behs if b.get("shadow")), with_real_l1_store=sum(1 for b in behs if b["proc"] == "l1"), with_real_bridge_store=sum(1 for b in behs if b["proc"] == "bridge"),
+            behaviours=dict(edge_cover_sampled=n_edge, random_walks=n_walk, free_scheduling=sum(1 for b in behs if b.get("free")), with_second_subscriber=sum(1 for b in behs if b.get("shadow")), wide_ranges=sum(1 for b in behs if b.get("offset")), with_real_l1_store=sum(1 for b in behs if b["proc"] == "l1"), with_real_bridge_store=sum(1 for b in behs if b["proc"] == "bridge"),
                             **notes),
             replay=dict(wall_s=replay_s, process_calls=nproc, with_events=nontriv, reorg_calls=nreorg, reorgs_deleting_rows=nreorg_rows,
                         restarts=sum(1 for e in evs if e["ev"] == "restart"), rpc_calls=sum(1 for e in evs if e["ev"] == "rpc"),
